@@ -21,7 +21,7 @@ RULE = (
     "activity x logging configuration; hash seed unset; hash seed 1) and all digests must equal the baseline. evaluations = seeded calls "
     "compared with their baseline; distinct_nontrivial = distinct (cell, algorithm, prelude, logging configuration / hash seed) tuples"
 )
-REQUIRED = {"calls_compared": 90, "logging_configs_compared": 20, "dirty_history_compared": 30, "hashseed_compared": 16, "fit_cases": 5, "personalize_cases": 3, "reused_settings_compared": 4, "simulate_cases_table_driven": 1}
+REQUIRED = {"calls_compared": 90, "logging_configs_compared": 20, "dirty_history_compared": 30, "hashseed_compared": 16, "fit_cases": 5, "personalize_cases": 3, "reused_settings_compared": 4, "simulate_cases_table_driven": 1, "scipy_cases_with_two_workers": 1}
 ASSUMPTIONS = [
     "bit-identity of sha256 digests over tensor bytes; matplotlib backend Agg; logs written under a per-case temporary directory",
     "logging grid restricted to what the settings class accepts (plot periodicity a multiple of save periodicity)",
@@ -99,6 +99,9 @@ def run_shard(spec, ctx):
             settings = {"n_iter": 12, "n_burn_in_iter": 4}
         elif what == "scipy_minimize":
             settings = {"use_jacobian": False}
+            if (spec["k"] + i) % 2 == 0:
+                settings["n_jobs"] = 2  # documented option: the seed, not the worker processes, decides the result
+                ctx.count("scipy_cases_with_two_workers")
         tmp = tempfile.mkdtemp(prefix="vf-c11-")
         # seed classes: 0 (falsy!), 1, 2**32 - 1 (largest numpy seed), random
         seed_call = [0, int(rng.integers(2, 1 << 20)), 1, 2 ** 32 - 1][(spec["k"] // 3 + i) % 4] if what != "fit" else [int(rng.integers(2, 1 << 20)), 0][(spec["k"] + i) % 2]
